@@ -64,11 +64,11 @@ var leavesOf = map[string]int{"bridge": 1, "bridge2": 2, "bridge+claim": 1, "inf
 // reference model
 
 type mstate struct {
-	Kinds     []string // good blocks believed stored (numbers 1..len)
-	Halted    bool
-	GapKind   string // the block that halted the store
-	Refused   uint64 // its number
-	Reorged   bool   // some reorg has removed stored blocks before (sticky)
+	Kinds   []string // good blocks believed stored (numbers 1..len)
+	Halted  bool
+	GapKind string // the block that halted the store
+	Refused uint64 // its number
+	Reorged bool   // some reorg has removed stored blocks before (sticky)
 }
 
 func (s mstate) tip() uint64 { return uint64(len(s.Kinds)) }
@@ -299,6 +299,9 @@ func execute(c *mc.Ctx, tier string, store sk.Kind, history []string, fullOracle
 	S := string(store)
 	cause := "initial-state"
 	lastUnhalted := false
+	// frontier: the number of leaves the store's IN-MEMORY append frontier stands at, followed only to
+	// NAME one known defect precisely (a reorg does not reset it); -1: not initialised / rebuilt from the database.
+	frontier := -1
 	for i, ev := range history {
 		e, perr := parseEvent(ev)
 		if perr != nil {
@@ -338,6 +341,9 @@ func execute(c *mc.Ctx, tier string, store sk.Kind, history []string, fullOracle
 				if m.Reorged {
 					c.Witness("good_block_accepted_after_reorg")
 				}
+				if leavesOf[e.Kind] > 0 {
+					frontier = len(chain.Leaves())
+				}
 				cause = "after-good-block"
 			}
 		case 'x':
@@ -353,6 +359,10 @@ func execute(c *mc.Ctx, tier string, store sk.Kind, history []string, fullOracle
 				key := S + "/ProcessBlock/inconsistent-block-accepted"
 				if m.Reorged && !m.Halted {
 					key = S + "/ProcessBlock/inconsistent-block-accepted-after-reorg"
+					if dc, ok := firstDeposit(blk); ok && frontier >= 0 && frontier != len(chain.Leaves()) && int(dc) == frontier {
+						// the skipped-to index is exactly where the frontier stood before the reorg
+						key = S + "/ProcessBlock/gap-matching-pre-reorg-frontier-accepted"
+					}
 				}
 				lpb, _ := n.W.GetLastProcessedBlock(nil)
 				c.Failf(key, "history %v: ProcessBlock(%d, %s: %s) returned nil and the last processed block is now %d; the reference tree has %d leaves",
@@ -361,6 +371,7 @@ func execute(c *mc.Ctx, tier string, store sk.Kind, history []string, fullOracle
 			case !isInc(err):
 				c.Failf(S+"/ProcessBlock/inconsistent-block-wrong-error", "history %v: ProcessBlock(%d, %s) returned %q, want sync.ErrInconsistentState", history[:i+1], blk.Num, e.Kind, err)
 			case !m.Halted:
+				frontier = -1 // the failed append rebuilt the frontier from the database
 				c.Witness("halted_by_" + e.Kind)
 				if m.Reorged {
 					c.Witness("halted_again_after_reorg")
@@ -422,6 +433,15 @@ func execute(c *mc.Ctx, tier string, store sk.Kind, history []string, fullOracle
 		}
 	}
 	return key, enabled(store, tier, m), nil
+}
+
+func firstDeposit(b aggsync.Block) (uint32, bool) {
+	for _, e := range b.Events {
+		if ev, ok := e.(bridgesync.Event); ok && ev.Bridge != nil {
+			return ev.Bridge.DepositCount, true
+		}
+	}
+	return 0, false
 }
 
 // describe renders the tree-relevant content of a block.
@@ -593,7 +613,7 @@ func oracle(c *mc.Ctx, cl *classification, n *sk.Node, chain *sk.Chain, m mstate
 
 type tally struct {
 	calls, inc, data, otherErr int
-	firstBad                  string
+	firstBad                   string
 }
 
 func firstBad(cl *classification, tallies map[string]*tally) string {
@@ -604,7 +624,6 @@ func firstBad(cl *classification, tallies map[string]*tally) string {
 	}
 	return "?"
 }
-
 
 // probeContinuation: right after an un-halting reorg the store must accept the correct
 // continuation (the execution's objects are thrown away afterwards, so this disturbs nothing).
